@@ -281,7 +281,7 @@ def cfg_derivable_variables(G: CFG, A: Variable) -> Set[Variable]:
     for r in R:
         if r.variable == A and len(r.alternative.symbols) == 1:
             B = r.alternative.symbols[0]
-            if B in V:
+            if isinstance(B, Variable) and B in V:
                 W.add(B)
 
     while W1 != W:
@@ -290,7 +290,7 @@ def cfg_derivable_variables(G: CFG, A: Variable) -> Set[Variable]:
             if len(r.alternative.symbols) == 1:
                 C = r.variable
                 B = r.alternative.symbols[0]
-                if C in W1 and B in V:
+                if C in W1 and isinstance(B, Variable) and B in V:
                     W.add(B)
     return W - {A}
 
